@@ -258,6 +258,159 @@ func actorCases(ai *actorInfo) (*ssa.Select, []actorCase, *ssa.BasicBlock) {
 	return sel, cases, sel.Block()
 }
 
+// requestValues: the received request and every parameter of an actor function that receives a value derived from
+// it (the case body extracted into a method, the request handed on to helpers), to a fixpoint.
+func requestValues(p *Program, ai *actorInfo, recv ssa.Value) map[ssa.Value]bool {
+	vals := map[ssa.Value]bool{recv: true}
+	isReq := func(v ssa.Value) bool { return vals[v] }
+	for round := 0; round < 6; round++ {
+		changed := false
+		for _, fn := range ai.order {
+			ForEachInstr(fn, func(ins ssa.Instruction) {
+				c, ok := ins.(ssa.CallInstruction)
+				if !ok {
+					return
+				}
+				g := c.Common().StaticCallee()
+				if g == nil || !InRepo(g) || g.Blocks == nil {
+					return
+				}
+				for i, a := range c.Common().Args {
+					if i < len(g.Params) && !vals[g.Params[i]] && DependsOn(a, isReq) {
+						vals[g.Params[i]] = true
+						changed = true
+					}
+				}
+			})
+		}
+		if !changed {
+			break
+		}
+	}
+	return vals
+}
+
+type replyCount struct{ min, max int }
+
+// replySummary: min/max number of sends on a channel derived from a request value over all paths through fn
+// (entry to exit), counting calls of module functions that receive the request by their own summary.
+func replySummary(fn *ssa.Function, vals map[ssa.Value]bool, memo map[*ssa.Function]*replyCount, stack map[*ssa.Function]bool) replyCount {
+	if m, ok := memo[fn]; ok {
+		return *m
+	}
+	if stack[fn] || fn.Blocks == nil {
+		return replyCount{0, 0}
+	}
+	stack[fn] = true
+	res, _ := replyPaths(fn, fn.Blocks[0], nil, vals, memo, stack)
+	stack[fn] = false
+	memo[fn] = &res
+	return res
+}
+
+func replyEvents(ins ssa.Instruction, vals map[ssa.Value]bool, memo map[*ssa.Function]*replyCount, stack map[*ssa.Function]bool) replyCount {
+	isReq := func(v ssa.Value) bool { return vals[v] }
+	switch x := ins.(type) {
+	case *ssa.Send:
+		if DependsOn(x.Chan, isReq) {
+			return replyCount{1, 1}
+		}
+	case ssa.CallInstruction:
+		if _, isGo := ins.(*ssa.Go); isGo {
+			return replyCount{}
+		}
+		g := x.Common().StaticCallee()
+		if g == nil || !InRepo(g) || g.Blocks == nil {
+			return replyCount{}
+		}
+		passes := false
+		for _, a := range x.Common().Args {
+			if DependsOn(a, isReq) {
+				passes = true
+			}
+		}
+		if passes {
+			return replySummary(g, vals, memo, stack)
+		}
+	}
+	return replyCount{}
+}
+
+// replyPaths: min/max reply events from block `from` to `stop` (or to the function's exits when stop is nil);
+// the bool reports whether a non-panicking exit is reachable.
+func replyPaths(fn *ssa.Function, from, stop *ssa.BasicBlock, vals map[ssa.Value]bool, fmemo map[*ssa.Function]*replyCount, stack map[*ssa.Function]bool) (replyCount, bool) {
+	memo := map[*ssa.BasicBlock]*replyCount{}
+	onStack := map[*ssa.BasicBlock]bool{}
+	exits := false
+	const inf = 1 << 20
+	var walk func(b *ssa.BasicBlock) replyCount
+	walk = func(b *ssa.BasicBlock) replyCount {
+		if b == stop {
+			return replyCount{0, 0}
+		}
+		if m, ok := memo[b]; ok {
+			return *m
+		}
+		if onStack[b] {
+			return replyCount{0, 0} // inner loop back edge
+		}
+		onStack[b] = true
+		here := replyCount{}
+		for _, ins := range b.Instrs {
+			e := replyEvents(ins, vals, fmemo, stack)
+			here.min += e.min
+			here.max += e.max
+		}
+		res := replyCount{inf, 0}
+		if len(b.Succs) == 0 {
+			if _, isPanic := b.Instrs[len(b.Instrs)-1].(*ssa.Panic); !isPanic {
+				exits = true
+			}
+			res = replyCount{0, 0}
+		}
+		for _, s := range b.Succs {
+			m := walk(s)
+			if m.min < res.min {
+				res.min = m.min
+			}
+			if m.max > res.max {
+				res.max = m.max
+			}
+		}
+		res.min += here.min
+		res.max += here.max
+		// a reply inside an inner loop (a cycle through b that avoids stop) would be unbounded
+		if here.max > 0 {
+			seen := map[*ssa.BasicBlock]bool{}
+			if stop != nil {
+				seen[stop] = true
+			}
+			work := append([]*ssa.BasicBlock{}, b.Succs...)
+			for len(work) > 0 {
+				x := work[len(work)-1]
+				work = work[:len(work)-1]
+				if seen[x] {
+					continue
+				}
+				seen[x] = true
+				if x == b {
+					res.max = inf
+					break
+				}
+				work = append(work, x.Succs...)
+			}
+		}
+		if res.max > inf {
+			res.max = inf
+		}
+		onStack[b] = false
+		memo[b] = &res
+		return res
+	}
+	r := walk(from)
+	return r, exits
+}
+
 func ruleActorAnswersOnce(p *Program, r *Report) {
 	r.Begin("R17b", "every update request is answered exactly once: on every control-flow path from the select case that receives an updateRequest back to the select, exactly one send on that request's reply channel occurs (min = max = 1 over all paths), and the update branch cannot leave the loop", 1)
 	defer r.End()
@@ -278,82 +431,13 @@ func ruleActorAnswersOnce(p *Program, r *Report) {
 		}
 		found = true
 		r.Fn(FnName(ai.root))
-		isReply := func(ins ssa.Instruction) bool {
-			s, ok := ins.(*ssa.Send)
-			if !ok {
-				return false
+		vals := requestValues(p, ai, c.recv)
+		for v := range vals {
+			if prm, ok := v.(*ssa.Parameter); ok {
+				r.Fn(FnName(prm.Parent()))
 			}
-			return DependsOn(s.Chan, func(v ssa.Value) bool { return v == c.recv })
 		}
-		// min/max number of reply sends from block b to the loop head
-		type mm struct{ min, max int }
-		memo := map[*ssa.BasicBlock]*mm{}
-		onStack := map[*ssa.BasicBlock]bool{}
-		exits := false
-		var walk func(b *ssa.BasicBlock) mm
-		walk = func(b *ssa.BasicBlock) mm {
-			if b == loopHead {
-				return mm{0, 0}
-			}
-			if m, ok := memo[b]; ok {
-				return *m
-			}
-			if onStack[b] {
-				return mm{0, 0} // inner loop back edge: counted once through the memo of its body
-			}
-			onStack[b] = true
-			here := 0
-			for _, ins := range b.Instrs {
-				if isReply(ins) {
-					here++
-				}
-			}
-			res := mm{1 << 20, 0}
-			if len(b.Succs) == 0 {
-				if _, isPanic := b.Instrs[len(b.Instrs)-1].(*ssa.Panic); !isPanic {
-					exits = true
-				}
-				res = mm{0, 0}
-			}
-			for _, s := range b.Succs {
-				m := walk(s)
-				if m.min < res.min {
-					res.min = m.min
-				}
-				if m.max > res.max {
-					res.max = m.max
-				}
-			}
-			res.min += here
-			res.max += here
-			// a block inside an inner loop containing a reply send would be unbounded
-			if here > 0 && Reaches(b, b, false) {
-				inLoopNotViaHead := false
-				// is there a cycle through b that avoids the actor's select block?
-				seen := map[*ssa.BasicBlock]bool{loopHead: true}
-				stack := append([]*ssa.BasicBlock{}, b.Succs...)
-				for len(stack) > 0 {
-					x := stack[len(stack)-1]
-					stack = stack[:len(stack)-1]
-					if seen[x] {
-						continue
-					}
-					seen[x] = true
-					if x == b {
-						inLoopNotViaHead = true
-						break
-					}
-					stack = append(stack, x.Succs...)
-				}
-				if inLoopNotViaHead {
-					res.max = 1 << 20
-				}
-			}
-			onStack[b] = false
-			memo[b] = &res
-			return res
-		}
-		m := walk(c.body)
+		m, exits := replyPaths(ai.root, c.body, loopHead, vals, map[*ssa.Function]*replyCount{}, map[*ssa.Function]bool{})
 		key := "reply-once@" + c.chanF
 		switch {
 		case m.min == 1 && m.max == 1 && !exits:
@@ -402,7 +486,10 @@ func ruleActorInstallThenNotify(p *Program, r *Report) {
 		}
 	}
 	if globalPhi == nil {
-		r.Undecided("global", "loop-carried scope variable not found in the actor", ai.root.Pos())
+		// the state may live in a struct field owned by the actor instead of a loop variable
+		if !installThenNotifyField(p, r, ai, upd) {
+			r.Undecided("global", "neither a loop-carried scope variable nor a scope-typed state field found in the actor", ai.root.Pos())
+		}
 		return
 	}
 	for _, c := range cases {
@@ -652,6 +739,10 @@ func ruleActorNoClientHandoff(p *Program, r *Report) {
 			req = c.recv
 		}
 	}
+	reqVals := map[ssa.Value]bool{}
+	if req != nil {
+		reqVals = requestValues(p, ai, req)
+	}
 	n := 0
 	for _, fn := range ai.order {
 		ord := map[string]int{}
@@ -675,8 +766,8 @@ func ruleActorNoClientHandoff(p *Program, r *Report) {
 				key = fmt.Sprintf("%s~%d", key, ord[key])
 			}
 			r.Fn(FnName(fn))
-			if fn == ai.root && req != nil && DependsOn(op.ch, func(v ssa.Value) bool { return v == req }) {
-				r.OK(key, "reply channel of the request being served (its sender is parked on the receive)", op.ins.Pos())
+			if req != nil && DependsOn(op.ch, func(v ssa.Value) bool { return reqVals[v] }) {
+				r.OK(key, "reply channel of the request being served (its sender is parked on the receive; R17b: exactly one reply)", op.ins.Pos())
 				continue
 			}
 			r.ViolPath(key, fmt.Sprintf("%s runs on the engine goroutine and sends on %s: unless a receiver is guaranteed for every such send the engine parks forever and serves no later request", FnName(fn), org), op.ins.Pos(), ai.reach[fn])
@@ -867,4 +958,169 @@ func ruleRecoverToError(p *Program, r *Report) {
 func init() {
 	register("C17", Rule{"R17h", ruleRecoverToError})
 	register("C10", Rule{"R17h", ruleRecoverToError})
+}
+
+// installThenNotifyField is R17c for an actor whose state lives in a struct field (e.g. engineState.global) instead
+// of a loop variable:
+//   - every watcher.update call on the actor is handed a load of the state field (watchers only ever see the state
+//     that is installed at that moment; a new watcher gets the current state);
+//   - the field is written, apart from initialisation before the loop, only as <load of the field>.With(…, value)
+//     where value is this request's evaluation result, on the branch where that evaluation's error is nil (a failed
+//     update leaves the state unchanged);
+//   - in the installing function every call that reaches watcher.update is dominated by the installing store.
+func installThenNotifyField(p *Program, r *Report, ai *actorInfo, upd *ssa.Function) bool {
+	scopeField := func(addr ssa.Value) (string, bool) {
+		fa, ok := addr.(*ssa.FieldAddr)
+		if !ok {
+			return "", false
+		}
+		k, _, ok := cellKeyOfAddr(fa)
+		if !ok || !strings.HasSuffix(Deref(fa.Type()).String(), "rel.Scope") {
+			return "", false
+		}
+		return k, true
+	}
+	loadOf := func(v ssa.Value) (string, bool) {
+		ld, ok := v.(*ssa.UnOp)
+		if !ok || ld.Op != token.MUL {
+			return "", false
+		}
+		return scopeField(ld.X)
+	}
+	// the state cell: the scope field handed to watcher.update
+	cell := ""
+	for _, fn := range ai.order {
+		for _, c := range callsTo(fn, upd) {
+			if k, ok := loadOf(c.Call.Args[len(c.Call.Args)-1]); ok {
+				cell = k
+			}
+		}
+	}
+	if cell == "" {
+		return false
+	}
+	r.Notes = append(r.Notes, "R17c: actor state lives in field "+cell)
+	// functions from which watcher.update is reachable (static calls)
+	reachesUpd := map[*ssa.Function]bool{upd: true}
+	for changed := true; changed; {
+		changed = false
+		for _, fn := range ai.order {
+			if reachesUpd[fn] {
+				continue
+			}
+			ForEachInstr(fn, func(ins ssa.Instruction) {
+				if c, ok := ins.(ssa.CallInstruction); ok {
+					if g := c.Common().StaticCallee(); g != nil && reachesUpd[g] && !reachesUpd[fn] {
+						reachesUpd[fn] = true
+						changed = true
+					}
+				}
+			})
+		}
+	}
+	n := 0
+	for _, fn := range ai.order {
+		for i, c := range callsTo(fn, upd) {
+			n++
+			r.Fn(FnName(fn))
+			k, ok := loadOf(c.Call.Args[len(c.Call.Args)-1])
+			r.Check(ok && k == cell, fmt.Sprintf("notify-current-state@%s~%d", FnName(fn), i+1), "watchers are sent the installed state (a load of "+cell+")", "a watcher is sent a scope that is not the actor's installed state: it can observe a stale or not yet installed database", c.Pos())
+		}
+	}
+	if n == 0 {
+		r.Viol("notifies", "no watcher is ever notified on the actor", ai.root.Pos())
+	}
+	installs := 0
+	for _, fn := range ai.order {
+		ord := 0
+		ForEachInstr(fn, func(ins ssa.Instruction) {
+			st, ok := ins.(*ssa.Store)
+			if !ok {
+				return
+			}
+			k, ok := scopeField(st.Addr)
+			if !ok || k != cell {
+				return
+			}
+			ord++
+			key := fmt.Sprintf("state-write@%s~%d", FnName(fn), ord)
+			r.Fn(FnName(fn))
+			w, isWith := st.Val.(*ssa.Call)
+			fromState := false
+			if isWith {
+				if g := w.Call.StaticCallee(); g == nil || g.Name() != "With" || !strings.HasSuffix(w.Type().String(), "rel.Scope") {
+					isWith = false
+				} else {
+					fromState = DependsOn(w.Call.Args[0], func(v ssa.Value) bool { k2, ok := loadOf(v); return ok && k2 == cell })
+				}
+			}
+			if !isWith || !fromState {
+				// initialisation: allowed in the actor root, outside every loop
+				if fn == ai.root && !Reaches(st.Block(), st.Block(), false) {
+					r.OK(key, "initialisation before the loop", st.Pos())
+					return
+				}
+				r.Viol(key, fmt.Sprintf("%s overwrites the actor's state with something other than <current state>.With(…): updates are not applied on top of one another", FnName(fn)), st.Pos())
+				return
+			}
+			installs++
+			// the installed value is an evaluation result of this function, and the store is on its nil-error branch
+			var evalCall *ssa.Call
+			DependsOn(w.Call.Args[len(w.Call.Args)-1], func(v ssa.Value) bool {
+				ex, ok := v.(*ssa.Extract)
+				if !ok || ex.Index != 0 {
+					return false
+				}
+				if c, ok := ex.Tuple.(*ssa.Call); ok && c.Parent() == fn {
+					res := c.Call.Signature().Results()
+					if res.Len() == 2 && isErrorType(res.At(1).Type()) {
+						evalCall = c
+					}
+				}
+				return false
+			})
+			if evalCall == nil {
+				r.Viol(key, fmt.Sprintf("%s installs a value that is not the result of an evaluation made in this step", FnName(fn)), st.Pos())
+				return
+			}
+			errV := extractOf(evalCall, 1)
+			onNil := false
+			for d := st.Block(); d != nil && !onNil; d = d.Idom() {
+				id := d.Idom()
+				if id == nil {
+					break
+				}
+				if iff, ok := id.Instrs[len(id.Instrs)-1].(*ssa.If); ok && errV != nil {
+					if e, nonNil, is := ErrNonNilBranch(iff.Cond); is && e == ssa.Value(errV) {
+						other := id.Succs[1-nonNil]
+						if other == d || other.Dominates(d) {
+							onNil = true
+						}
+					}
+				}
+			}
+			r.Check(onNil, "failed-update-unchanged@"+FnName(fn), "the state is written only where the evaluation's error is nil", "the actor's state is overwritten on a path where the update's evaluation failed: a failed update changes the database", st.Pos())
+			// notifications follow the installation
+			m := 0
+			ForEachInstr(fn, func(i2 ssa.Instruction) {
+				c, ok := i2.(ssa.CallInstruction)
+				if !ok {
+					return
+				}
+				g := c.Common().StaticCallee()
+				if g == nil || !reachesUpd[g] {
+					return
+				}
+				m++
+				r.Check(InstrDominates(st, i2), fmt.Sprintf("notify-after-install@%s~%d", FnName(fn), m), "notification follows installation", "watchers are notified before the new state is installed", i2.Pos())
+			})
+			if m == 0 {
+				r.Viol("notifies@"+FnName(fn), "the update step does not notify the watchers after installing the new state", st.Pos())
+			}
+		})
+	}
+	if installs == 0 {
+		r.Viol("installs", "no function on the actor installs <state>.With(…, value): updates never take effect", ai.root.Pos())
+	}
+	return true
 }
